@@ -256,13 +256,24 @@ class StreamSession:
         if self._output_reader is None:
             return
         _MAX_DRAIN = 10_000
+        on_log = self._on_log
+        callback_exc: Exception | None = None
         for _ in range(_MAX_DRAIN):
             try:
-                _read_batch_with_log_check(self._output_reader, self._on_log, self._external_config, shm=self._shm)
+                _read_batch_with_log_check(self._output_reader, on_log, self._external_config, shm=self._shm)
             except RpcError:
                 continue
             except (StopIteration, pa.ArrowInvalid, OSError):
-                return
+                break
+            except Exception as exc:
+                # The caller's on_log callback raised.  The batch it was given is
+                # consumed; the rest of the stream is not.  Finish the drain
+                # without the callback so the transport ends up at the EOS marker,
+                # then let the exception out (see _read_unary_response).
+                callback_exc = exc
+                on_log = None
+        if callback_exc is not None:
+            raise callback_exc
 
     def cancel(self) -> None:
         """Signal the server to stop processing and discard pending work.
